@@ -6,6 +6,7 @@ import (
 	"encoding/asn1"
 	"fmt"
 	"math/big"
+	"sort"
 	"time"
 )
 
@@ -144,6 +145,7 @@ func c11Confusables(r *Run) {
 			}{p, st})
 		}
 	}
+	c11NameVariants(r, origin)
 	parallel(len(jobs), 8, func(i int) {
 		j := jobs[i]
 		mkCA := func(cn string) *CA {
@@ -180,6 +182,80 @@ func c11Confusables(r *Run) {
 		}
 		if vs != "accept" {
 			r.Violate("C11 other-issuer-entry-revokes backend="+j.storage, fmt.Sprintf("only (%q, %d) is listed; the certificate with the same serial under %q is %s", j.p.cnA, j.p.listed, j.p.cnB, vs), j.p)
+		}
+	})
+}
+
+// c11NameVariants: two issuers whose names are made of (nearly) the same attributes — another order of the RDNs, another
+// grouping into multi-valued RDNs, an additional attribute crypto/x509 has no field for (DC, UID), a repeated CN — and the
+// same serial number. Only the pair that is listed may be reported revoked: the issuer that counts is the certificate's
+// issuer name as encoded, not a normalised rendering of it.
+func c11NameVariants(r *Run, origin *Origin) {
+	atv := func(oid asn1.ObjectIdentifier, v string) pkix.AttributeTypeAndValue {
+		return pkix.AttributeTypeAndValue{Type: oid, Value: v}
+	}
+	oC, oO, oCN := asn1.ObjectIdentifier{2, 5, 4, 6}, asn1.ObjectIdentifier{2, 5, 4, 10}, asn1.ObjectIdentifier{2, 5, 4, 3}
+	oDC, oUID := asn1.ObjectIdentifier{0, 9, 2342, 19200300, 100, 1, 25}, asn1.ObjectIdentifier{0, 9, 2342, 19200300, 100, 1, 1}
+	c, o, cn := atv(oC, "DE"), atv(oO, "C11 Example Corp"), atv(oCN, "C11 Issuing CA")
+	dc := pkix.AttributeTypeAndValue{Type: oDC, Value: asn1.RawValue{Tag: asn1.TagIA5String, Bytes: []byte("lab")}}
+	uid := atv(oUID, "ca-7")
+	base := pkix.RDNSequence{{c}, {o}, {cn}}
+	variants := map[string]pkix.RDNSequence{
+		"reversed":    {{cn}, {o}, {c}},
+		"grouped":     {{c}, {o, cn}},
+		"extra-dc":    {{c}, {o}, {cn}, {dc}},
+		"extra-uid":   {{uid}, {c}, {o}, {cn}},
+		"repeated-cn": {{c}, {o}, {atv(oCN, "C11 Other CA")}, {cn}},
+		"o-before-c":  {{o}, {c}, {cn}},
+	}
+	var names []string
+	for k := range variants {
+		names = append(names, k)
+	}
+	sort.Strings(names)
+	type job struct {
+		variant, storage string
+		swap             bool
+	}
+	var jobs []job
+	for _, v := range names {
+		for _, st := range []string{"memory", "disk"} {
+			jobs = append(jobs, job{v, st, false}, job{v, st, true})
+		}
+	}
+	parallel(len(jobs), 8, func(i int) {
+		j := jobs[i]
+		na, nb := base, variants[j.variant]
+		if j.swap {
+			na, nb = nb, na
+		}
+		caA := NewCA(CAOpts{EC: true, RawSubject: mustMarshal(na)})
+		caB := NewCA(CAOpts{EC: true, RawSubject: mustMarshal(nb)})
+		dir := scratchDir("c11v")
+		fa, fb := writeFile(dir, "a.pem", certPEM(caA.Cert)), writeFile(dir, "b.pem", certPEM(caB.Cert))
+		pa, pb := fmt.Sprintf("/c11v/%d/a.crl", i), fmt.Sprintf("/c11v/%d/b.crl", i)
+		serial := big.NewInt(int64(4711 + i))
+		origin.SetBytes(pa, caA.MakeCRL(CRLOpts{Serials: []*big.Int{serial}, Number: 1}))
+		origin.SetBytes(pb, caB.MakeCRL(CRLOpts{Serials: []*big.Int{big.NewInt(990002)}, Number: 1}))
+		v, err := Provision(VCfg{Mode: "crl_only", WorkDir: scratchDir("c11vw"), Storage: j.storage, SigMode: "verify", TrustedSigners: []string{fa, fb},
+			CRLUrls: []string{origin.URL(pa), origin.URL(pb)}, UpdateInterval: "10h"})
+		if err != nil {
+			r.Violate("C11 provision-failed", fmt.Sprintf("name variants %+v: %v", j, err), nil)
+			return
+		}
+		defer v.Close()
+		listed := caA.IssueLeaf(LeafOpts{Serial: serial})
+		other := caB.IssueLeaf(LeafOpts{Serial: serial})
+		vl, _ := v.Verify([][]*x509.Certificate{{listed.Cert, caA.Cert}})
+		vo, _ := v.Verify([][]*x509.Certificate{{other.Cert, caB.Cert}})
+		r.Eval(fmt.Sprintf("name-variant/%s/%s/%v", j.variant, j.storage, j.swap), true)
+		r.Count("name-variant:" + j.variant + ":" + vl + "/" + vo)
+		if vl != "reject" {
+			r.Violate("C11 confusables-listed-accepted", fmt.Sprintf("name variant %s (swap=%v, %s): the listed certificate is %s", j.variant, j.swap, j.storage, vl), j)
+		}
+		if vo != "accept" {
+			r.Violate("C11 other-issuer-entry-revokes backend="+j.storage, fmt.Sprintf("name variant %s (swap=%v): serial %s is listed under one issuer name only; the certificate with the same serial under the other name (same attributes, %s) is %s",
+				j.variant, j.swap, serial, j.variant, vo), j)
 		}
 	})
 }
